@@ -77,7 +77,7 @@ def shift (h : HL) : Option Str × HL :=
     | some r =>
       match hostrangeShift r with
       | (host, r') =>
-        if r'.empty then (host, ⟨h.ranges.eraseIdxIfInBounds 0, h.nhosts - 1⟩)
+        if r'.empty then (host, ⟨(h.ranges.toList.drop 1).toArray, h.nhosts - 1⟩)   -- hostlist_delete_range(hl, 0)
         else (host, ⟨h.ranges.setIfInBounds 0 r', h.nhosts - 1⟩)
   else (none, h)
 
